@@ -55,7 +55,11 @@ def run_variant(pid, patch):
         mod = importlib.import_module('props.' + pid)
         ck = Check(pid, tier='quick', level=getattr(mod, 'LEVEL', 'other'), repo=ov, quiet=True)
         try:
-            mod.run(ck)
+            try:
+                mod.run(ck)
+            except AnalysisBroken:
+                if not ck.new_violations():
+                    raise
             ck.finish()
             new = [o.key for o in ck.result['new']]
             status = 'detected' if new else 'MISSED'
